@@ -1390,3 +1390,35 @@ func c11DeviateFieldsFilled(ctx *core.Ctx, r *core.Report) {
 	}
 	r.Floor("deviation-field-coverage(filled)", n, 12)
 }
+
+// c02RestrictedEnumKeepsValue: RFC 7950 9.6.4.2 — when a type restricts an
+// enumeration typedef, the enums it names keep the values they have in the
+// typedef. In compileType the numbering loop consults the typedef's compiled
+// enum list (by label) before it falls back to the written value or the next
+// free number.
+func c02RestrictedEnumKeepsValue(ctx *core.Ctx, r *core.Report) {
+	f := ctx.Method("meta", "compiler", "compileType")
+	if f == nil {
+		r.Fatalf("anchor meta.compiler.compileType not found")
+		return
+	}
+	// the store of Enum.Id … in the loop over y.enums depends on a ByLabel lookup in an inherited list
+	ok := false
+	for _, c := range core.CallSites(f) {
+		cal := core.StaticCallee(c)
+		if cal == nil || cal.Name() != "ByLabel" || loopBlocks(c.Block()) == nil {
+			continue
+		}
+		// its receiver comes from the typedef's type (field enum of a *Type reached from findTypedef's result)
+		// the looked-up enum flows into the numbering
+		if c.Value() != nil {
+			for _, ref := range *c.Value().Referrers() {
+				if ex, isEx := ref.(*ssa.Extract); isEx && ex.Index == 0 && ex.Referrers() != nil && len(*ex.Referrers()) > 0 {
+					ok = true
+				}
+			}
+		}
+	}
+	r.Ob("restricted-enum-keeps-value", "meta.compiler.compileType/enum-numbering", ctx.Pos(f.Pos()), ok,
+		"the numbering of enums no longer looks an enum up in the typedef being restricted: `type e { enum b; }` over `typedef e { enum a { value 5; } enum b; }` numbers b from 0 instead of keeping 6, so stored numbers and on-the-wire ids name other enums")
+}
